@@ -145,7 +145,7 @@ BLANK = type('Blank', (), {'__repr__': lambda self: 'BLANK'})()
 def parse_criterion(crit):
     """-> (op, operand python value) or None when not decided here."""
     k = tid(crit)
-    if k in ('n', 'b'):
+    if k in ('n', 'b', 'e'):
         return '=', crit
     if k != 't':
         return None
@@ -155,6 +155,8 @@ def parse_criterion(crit):
         if op in ('<>', '=') and crit != '':
             return op, BLANK            # bare operator: the (not) blank cells
         return None                     # other blank-matching criteria: not judged
+    if rest.upper() in xl.ERRORS:         # an error value: not a pattern, not ordered
+        return (op, xl.err(rest.upper())) if op in ('=', '<>') else None
     n = rs.to_number(rest)
     if n != rs.VALUE:
         return op, n
@@ -176,6 +178,10 @@ def member(cell, op, x):
             return NO
         return YES if tid(cell) == 't' else EITHER
     kc, kx = tid(cell), tid(x)
+    if kx == 'e':
+        if kc != 'e':
+            return EITHER if op == '<>' else NO
+        return YES if (str(cell).upper() == str(x).upper()) == (op == '=') else NO
     if kc == 'e':
         # an error value satisfies no criterion of another type; for <> the
         # statement (own type) and Excel (everything else) differ
